@@ -20,42 +20,10 @@ def pend (strict : Bool) (st : St) : List Sid :=
 def PV (strict : Bool) (st : St) (resolved : Bool) : Prop :=
   ∀ x ∈ st.outstanding, x ∈ queued st ∨ (st.stopping = false ∧ resolved = false ∧ x ∈ pend strict st)
 
-/-! ### what firing removes -/
-
-theorem deliver_removes (out sids : List Sid) (o : Outcome) (hn : out.Nodup) :
-    ∀ x ∈ (deliver out sids o).1, x ∉ sids := by
-  induction sids generalizing out with
-  | nil => intro x _ h; cases h
-  | cons s rest ih =>
-    intro x hx hc
-    simp only [deliver] at hx
-    split at hx
-    · have hsub := (deliver_fd (out.erase s) rest o).sub x hx
-      rcases List.mem_cons.mp hc with h | h
-      · subst h; exact hn.not_mem_erase hsub
-      · exact ih _ (hn.erase s) x hx h
-    · rename_i hs
-      rcases List.mem_cons.mp hc with h | h
-      · subst h; exact hs ((deliver_fd out rest o).sub x hx)
-      · exact ih _ hn x hx h
-
-theorem deliverMany_removes (out : List Sid) (l : List (List Sid × Outcome)) (hn : out.Nodup) :
-    ∀ x ∈ (deliverMany out l).1, ∀ sids o, (sids, o) ∈ l → x ∉ sids := by
-  induction l generalizing out with
-  | nil => intro x _ sids o h; cases h
-  | cons a rest ih =>
-    obtain ⟨s0, o0⟩ := a
-    intro x hx sids o hm
-    simp only [deliverMany] at hx
-    rcases List.mem_cons.mp hm with h | h
-    · injection h with h1 h2; subst h1
-      exact deliver_removes out sids o0 hn x ((deliverMany_fd _ rest).sub x hx)
-    · exact ih _ ((deliver_fd out s0 o0).nodup hn) x hx sids o h
-
 /-! ### `_send_requests`: every look-up's send fails or joins a payload -/
 
-theorem addToGroups_mono (gs : List Payload) (tp : TP) (sid : Sid) :
-    (∀ x ∈ payloadSids gs, x ∈ payloadSids (addToGroups gs tp sid)) ∧ sid ∈ payloadSids (addToGroups gs tp sid) := by
+theorem addToGroups_mono (gs : List Payload) (tp : TP) (sid : Sid) (ms : List Msg) :
+    (∀ x ∈ payloadSids gs, x ∈ payloadSids (addToGroups gs tp sid ms)) ∧ sid ∈ payloadSids (addToGroups gs tp sid ms) := by
   simp only [addToGroups]
   split
   · rename_i hany
@@ -64,12 +32,12 @@ theorem addToGroups_mono (gs : List Payload) (tp : TP) (sid : Sid) :
       simp only [payloadSids, List.mem_flatMap, List.mem_map] at hx ⊢
       obtain ⟨g, hg, hxg⟩ := hx
       by_cases h : g.tp = tp
-      · exact ⟨{ g with sids := g.sids ++ [sid] }, ⟨g, hg, by simp [h]⟩, by simp [hxg]⟩
+      · exact ⟨{ g with sids := g.sids ++ [sid], msgs := g.msgs ++ ms }, ⟨g, hg, by simp [h]⟩, by simp [hxg]⟩
       · exact ⟨g, ⟨g, hg, by simp [h]⟩, hxg⟩
     · simp only [List.any_eq_true, decide_eq_true_eq] at hany
       obtain ⟨g, hg, hgt⟩ := hany
       simp only [payloadSids, List.mem_flatMap, List.mem_map]
-      exact ⟨{ g with sids := g.sids ++ [sid] }, ⟨g, hg, by simp [hgt]⟩, by simp⟩
+      exact ⟨{ g with sids := g.sids ++ [sid], msgs := g.msgs ++ ms }, ⟨g, hg, by simp [hgt]⟩, by simp⟩
   · constructor
     · intro x hx
       simp only [payloadSids, List.flatMap_append, List.mem_append]; exact Or.inl hx
@@ -84,7 +52,7 @@ theorem procResults_mono (ls : List Lookup) (out : List Sid) (gs : List Payload)
     simp only [procResults]
     split
     · split
-      · exact ih _ _ x ((addToGroups_mono gs _ _).1 x hx)
+      · exact ih _ _ x ((addToGroups_mono gs _ _ _).1 x hx)
       · exact ih _ _ x hx
       · exact ih _ _ x hx
     · exact ih _ _ x hx
@@ -105,7 +73,7 @@ theorem procResults_grouped (ls : List Lookup) (out : List Sid) (gs : List Paylo
       · rename_i p hpc
         rw [if_pos hs]
         rcases hm with h | h
-        · subst h; exact procResults_mono rest out _ _ (addToGroups_mono gs _ _).2
+        · subst h; exact procResults_mono rest out _ _ (addToGroups_mono gs _ _ _).2
         · exact ih _ _ hn hd.2 x hx (by simpa using h)
       · rename_i k hpc
         rw [if_pos hs]
